@@ -115,8 +115,18 @@ def run(ck, fx, cg, tier):
         su, lw, pu = size_updates[0][0], log_writes[0][0], pushes[0][0]
         # update: size (+)= object.size()
         rhs = su["rhs"]
-        uses_size_fn = any(callee_name(x) == A.get("heapobject.size") and obj_param is not None and mentions_local(x, obj_param)
-                           for x, _ in walk(rhs))
+        def _size_call(e, depth=0):
+            for x, _ in walk(e):
+                if callee_name(x) == A.get("heapobject.size") and obj_param is not None and mentions_local(x, obj_param):
+                    return True
+                if depth < 2 and x.get("k") == "Path" and x["res"].get("k") == "Local":
+                    for n2, _ in walk_body(alloc):
+                        if n2.get("k") == "Block":
+                            for st in n2["block"]["stmts"]:
+                                if st["k"] == "Let" and st["pat"].get("k") == "Binding" and st["pat"]["lid"] == x["res"]["lid"] and "init" in st and _size_call(st["init"], depth + 1):
+                                    return True
+            return False
+        uses_size_fn = _size_call(rhs)
         cumulative = su["k"] == "AssignOp" and su["op"] == "AddAssign" or (
             su["k"] == "Assign" and any(x.get("k") == "Field" and x.get("name") == "size" for x, _ in walk(rhs)))
         ck.ob("R16.onepush", "allocate|size += shape size of the allocated object", uses_size_fn and cumulative, loc(su),
